@@ -189,6 +189,16 @@ fn final_event(store: &FeoxStore, keys: &[Vec<u8>]) -> Value {
            "len": store.len(), "mem": store.memory_usage()})
 }
 
+/// After the last reader left and a flush returned: blocks the free-space manager offers, blocks
+/// the live generations occupy (from the documented layout), size of the data area.
+fn settled_event(store: &FeoxStore, blocks: u64) -> Value {
+    let fmt = store.verif_format_version();
+    let live: u64 = store.verif_snapshot().iter().filter(|r| r.sector != 0)
+        .map(|r| (crate::layout::encode_record(fmt, r.sector, &r.key, &vec![0u8; r.value_len], 1, 0).len() / crate::layout::BLOCK) as u64).sum();
+    let unwritten = store.verif_snapshot().iter().filter(|r| r.sector == 0).count();
+    json!({"e": "settled", "free": store.verif_free_runs().iter().map(|r| r.1).sum::<u64>(), "live": live, "data": blocks - crate::layout::DATA_START, "unwritten": unwritten})
+}
+
 /// Turn the raw event list of one run into history events.
 fn history(raw: &[RawEv], sh: &Shared, keys: &[Vec<u8>]) -> Vec<Value> {
     let invs = sh.invs.lock().unwrap();
@@ -239,7 +249,7 @@ fn setup_program(prog: &Value, path: &str) -> (Arc<Shared>, Vec<Vec<Value>>) {
 }
 
 /// One controlled schedule; returns (history events, choices per decision point, stalled).
-fn run_schedule(prog: &Value, schedule: &[usize], path: &str, pinout: Option<&str>) -> (Vec<Value>, Vec<Vec<usize>>, bool) {
+fn run_schedule(prog: &Value, schedule: &[usize], path: &str, pinout: Option<&str>) -> (Vec<Value>, Vec<Vec<usize>>, bool, Vec<&'static str>) {
     feoxdb::verif::set_now(NOW);
     let (sh, threads) = setup_program(prog, path);
     let nthreads = threads.len();
@@ -259,6 +269,7 @@ fn run_schedule(prog: &Value, schedule: &[usize], path: &str, pinout: Option<&st
     }
     let mut alive = vec![true; nthreads];
     let mut choices = Vec::new();
+    let mut parked_at: Vec<&'static str> = Vec::new();   // where the previously run thread stands at each decision
     let mut pos = 0;
     let mut stalled = false;
     let mut prev: Option<usize> = None;
@@ -286,6 +297,7 @@ fn run_schedule(prog: &Value, schedule: &[usize], path: &str, pinout: Option<&st
         let mut opts = vec![pick];
         opts.extend(runnable.iter().copied().filter(|r| *r != pick));
         choices.push(opts);
+        parked_at.push(match prev { Some(p) if alive[p] => last_point[p], _ => "" });
         pos += 1;
         if prev == Some(pick) { streak += 1; } else { streak = 0; }
         prev = Some(pick);
@@ -310,7 +322,7 @@ fn run_schedule(prog: &Value, schedule: &[usize], path: &str, pinout: Option<&st
         }
         obs::uninstall();
         let _ = obs::take();
-        return (vec![reset, json!({"e": "stall", "schedule": schedule})], choices, true);
+        return (vec![reset, json!({"e": "stall", "schedule": schedule})], choices, true, parked_at);
     }
     for h in handles {
         let _ = h.join();
@@ -326,9 +338,10 @@ fn run_schedule(prog: &Value, schedule: &[usize], path: &str, pinout: Option<&st
     if prog["cfg"]["pers"].as_bool().unwrap_or(false) {
         // dropping a persistent store costs 0.5 s; leak it (the process is short lived)
         let _ = sh.store.flush();
+        ev.push(settled_event(&sh.store, prog["cfg"]["blocks"].as_u64().unwrap_or(64)));
         if let Ok(s) = Arc::try_unwrap(sh) { std::mem::forget(s.store); }
     }
-    (ev, choices, false)
+    (ev, choices, false, parked_at)
 }
 
 pub fn main(args: &[String]) -> i32 {
@@ -358,11 +371,16 @@ fn dfs_main(o: &Opts) -> i32 {
         while let Some(prefix) = stack.pop() {
             if n >= max_sched { truncated += 1; break; }
             crate::util::watchdog::beat(&format!("program {pi} schedule {prefix:?}"));
-            let (ev, choices, stalled) = run_schedule(prog, &prefix, &path, o.get("pinout"));
+            let (ev, choices, stalled, parked_at) = run_schedule(prog, &prefix, &path, o.get("pinout"));
+            // optional focus: preempt a thread only where it stands at one of the named points
+            let focus: Option<Vec<String>> = prog["points"].as_array().map(|a| a.iter().filter_map(|x| x.as_str().map(String::from)).collect());
             if stalled { stalls += 1; }
             // choices[d][0] is the pick actually taken at decision d, the rest are alternatives
             for d in prefix.len()..choices.len() {
                 for &alt in choices[d].iter().skip(1) {
+                    if let Some(f) = &focus {
+                        if d > 0 && choices[d].contains(&choices[d - 1][0]) && !f.iter().any(|x| x == parked_at[d]) { continue; }
+                    }
                     let mut p: Vec<usize> = choices[..d].iter().map(|c| c[0]).collect();
                     p.push(alt);
                     // preemption bound: switching away from a thread that could have continued
@@ -496,6 +514,7 @@ fn free_main(o: &Opts) -> i32 {
         hist.retain(|e| { if e["e"] == "mem" { c += 1; c % 8 == 0 } else { true } });
         ev.extend(hist);
         ev.push(final_event(&sh.store, &sh.keys));
+        if pers { ev.push(settled_event(&sh.store, cfg["blocks"].as_u64().unwrap_or(64))); }
         for e in &ev { writeln!(out, "{}", e).unwrap(); events += 1; }
         if let Some(lp) = o.get("lockout") {
             let mut f = std::fs::OpenOptions::new().create(true).append(true).open(lp).expect("lockout");
